@@ -38,6 +38,21 @@ def signature(loader):
     return [(type(s).__name__, getattr(s, 'filename', None), getattr(s, 'lineno', None)) for s in loader.statements]
 
 
+def deep(x):
+    """a value the loader holds, written out in full"""
+    if isinstance(x, (list, tuple)):
+        return '[' + ', '.join(deep(y) for y in x) + ']'
+    if isinstance(x, dict):
+        return '{' + ', '.join('%s: %s' % (deep(k), deep(v)) for k, v in sorted(x.items(), key=repr)) + '}'
+    if hasattr(x, '__dict__') and not isinstance(x, type):
+        return '%s(%s)' % (type(x).__name__, ', '.join('%s=%s' % (k, deep(v)) for k, v in sorted(vars(x).items())))
+    return repr(x)
+
+
+def content(loader):
+    return [deep(s)[:4000] for s in loader.statements]
+
+
 def run(r):
     loader = xtuml.ModelLoader()
     twin = xtuml.ModelLoader()
@@ -77,6 +92,7 @@ def run(r):
                 pass
         outcomes.append(res)
         ev['n'] = len(loader.statements)
+        ev['c'] = content(loader)
         # the loader that saw the rejected texts holds the same statements, from the same lines, as its twin that did not
         ev['twin'] = bool(res != 'accepted' or signature(loader) == signature(twin)) if res != 'Timeout' else True
         if res not in ('accepted', 'Timeout'):
@@ -87,7 +103,7 @@ def run(r):
         if (k + 1) % every == 0 or k == len(r['texts']) - 1:
             out, text1 = build_text(loader)
             out2, text2 = build_text(twin)
-            events.append({'op': 'Build', 'k': k, 'res': out, 'n': len(loader.statements),
+            events.append({'op': 'Build', 'k': k, 'res': out, 'n': len(loader.statements), 'c': content(loader),
                            'twin': bool(out == out2 and text1 == text2), 'fresh': True})
             if out == 'Timeout':
                 break
